@@ -535,7 +535,7 @@ PROPS.update({
         theorems=[(CMP + 'Witness', ['DX.fromFields_indexDistinct', 'DX.fromVariants_indexDistinct', 'DX.clone_enum_trace_pipeline']), (CMP + 'C07', ['DX.clone_fieldwise', 'DX.clone_struct_fields', 'DX.clone_enum_fields',
                                  'DX.clone_from_same_variant', 'DX.clone_from_other_variant', 'DX.clone_from_spec'])],
         l1=[('basic', 4000, 150000), ('all', 3000, 100000), ('ext', 24000, 640000)],
-        extra=extras(extra_cmp_l2('cloneRun', None, 480, 9600), extra_programs(l2gen.gen_c07_program, 320, 6400, per=40, what='clone / clone_from differ from the documented field-wise behaviour (value, calls made on the fields, or the source changed)'), extra_twins(360, 6000)),
+        extra=extras(extra_cmp_l2('cloneRun', None, 480, 9600), extra_programs(l2gen.gen_c07_program, 320, 6400, per=40, what='clone / clone_from differ from the documented field-wise behaviour (value, calls made on the fields, or the source changed)'), extra_twins(360, 6000), extra_programs(l2gen.gen_macro_twin_program, 80, 1600, per=40, what='an item that comes out of a macro_rules! macro is derived differently by the attribute macro, by #[derive(Ex)] and by the standard derive')),
         labels=r':Clone$',
     ),
     'C08': dict(
@@ -543,7 +543,7 @@ PROPS.update({
         theorems=[(CMP + 'Witness', ['DX.fromFields_indexDistinct', 'DX.bin_fieldwise_pipeline']), ('DeriveExModel.Props.Tables', ['DX.trait_table_model', 'DX.trait_table_complete']), (CMP + 'C08', ['DX.forms_emitted', 'DX.ops_one_impl_per_form', 'DX.bin_fieldwise', 'DX.assign_fieldwise',
                                  'DX.un_fieldwise', 'DX.ops_fields', 'DX.forms_agree'])],
         l1=[('ops', 4000, 150000), ('all', 3000, 100000), ('ext', 24000, 640000)],
-        extra=extras(extra_cmp_l2('opsRun', None, 480, 9600), extra_programs(l2gen.gen_c08_program, 480, 9600, per=60, what='an operator derived from the struct definition does not act field-wise (value, operand order, reference form, call count or a borrowed operand changed)')),
+        extra=extras(extra_cmp_l2('opsRun', None, 480, 9600), extra_programs(l2gen.gen_c08_program, 480, 9600, per=60, what='an operator derived from the struct definition does not act field-wise (value, operand order, reference form, call count or a borrowed operand changed)'), extra_programs(l2gen.gen_macro_value_program, 80, 1600, per=40, what='an item, a helper-attribute argument or an impl body that comes out of a macro_rules! macro changed its value: a fragment lost its grouping')),
         labels=r':(Add|BitAnd|BitOr|BitXor|Div|Mul|Rem|Shl|Shr|Sub|Neg|Not)(Assign)?(#\d)?$',
     ),
     'C09': dict(
@@ -553,7 +553,7 @@ PROPS.update({
                   (CMP + 'C09Self', ['DX.expandSelf_id_of_no_self', 'DX.output_self_expanded', 'DX.output_has_no_self',
                                      'DX.output_verbatim', 'DX.rhs_self_expanded'])],
         l1=[('impl', 6000, 200000), ('ext', 24000, 640000)],
-        extra=extras(extra_cmp_l2('fwdRun', None, 600, 12000), extra_programs(l2gen.gen_c09_program, 640, 12800, per=80, what='an operator impl derived from the user impl does not forward faithfully (value, operand order, number of calls or clones)')),
+        extra=extras(extra_cmp_l2('fwdRun', None, 600, 12000), extra_programs(l2gen.gen_c09_program, 640, 12800, per=80, what='an operator impl derived from the user impl does not forward faithfully (value, operand order, number of calls or clones)'), extra_programs(l2gen.gen_macro_value_program, 80, 1600, per=40, what='an item, a helper-attribute argument or an impl body that comes out of a macro_rules! macro changed its value: a fragment lost its grouping')),
         labels=r'^impl|^err$',
     ),
     'C10': dict(
@@ -657,7 +657,7 @@ PROPS.update({
         explanation="theorems: accepted exactly for single-field structs; the returned reference is to the place self.<field> and Target is the field's declared type (arity_rejected, deref_is_field_place). L1; L2: address and type identity, write-through, rejections, unsized targets.",
         theorems=[(CMP + 'C18', ['DX.arity_rejected', 'DX.deref_is_field_place', 'DX.deref_sig_free_of_field_type', 'DX.deref_returns_trait_target'])],
         l1=[('ops', 4000, 150000), ('ext', 24000, 640000)],
-        extra=extras(extra_programs(l2gen.gen_c18_program, 240, 4800, what='Deref / DerefMut do not target the single field itself'), extra_verdicts(l2gen.gen_c18_reject_case, 96, 1000), extra_verdicts(l2gen.gen_c18_sibling_case, 32, 400)),
+        extra=extras(extra_programs(l2gen.gen_c18_program, 240, 4800, what='Deref / DerefMut do not target the single field itself'), extra_verdicts(l2gen.gen_c18_reject_case, 96, 1000), extra_verdicts(l2gen.gen_c18_sibling_case, 32, 400), extra_programs(l2gen.gen_macro_value_program, 80, 1600, per=40, what='an item, a helper-attribute argument or an impl body that comes out of a macro_rules! macro changed its value: a fragment lost its grouping')),
         labels=r':Deref(Mut)?$',
     ),
     'C19': dict(
